@@ -12,6 +12,7 @@ import numpy as np
 UNPLACED = sys.maxsize
 EPS = float(np.finfo(float).eps)
 INF = float('inf')
+NOAFF = '~no-affinity-key'
 
 
 class V:
@@ -203,7 +204,8 @@ def check_c04(rec):
             stack.append(ch)
     for key, node in nodes.items():
         true = {aff: len(apps) for aff, apps in counts.get(key, {}).items()}
-        have = {k: v for k, v in node.affinity_counters.items() if v != 0}
+        # (the scheduler keys instances whose manifest has no 'affinity' key by None; the harness' record calls that name NOAFF)
+        have = {(NOAFF if k is None else k): v for k, v in node.affinity_counters.items() if v != 0}
         if true != have:
             out.append(V('C04', 'counter-mismatch:' + key[0],
                          '%s %s counters %s, recount %s' % (key[0], key[1], have, true)))
